@@ -875,8 +875,24 @@ fn gen_case(rng: &mut Rng, cycle: &mut usize) -> Case {
             Some(gen_axis(rng, shape.get(ax).copied().unwrap_or(0)))
         }
     };
-    let x = axis_for(rng, 0);
-    let y = if two_d { axis_for(rng, 1) } else { None };
+    let mut x = axis_for(rng, 0);
+    let mut y = if two_d { axis_for(rng, 1) } else { None };
+    if two_d && shape.len() >= 2 && shape[0] != shape[1] && rng.chance(0.06) {
+        // both axes valid in themselves but with each other's length (data laid out like a meshgrid "xy" grid): two length violations,
+        // the strategy builder must not be consulted and the data must not be re-interpreted
+        let rising = |rng: &mut Rng, n: usize| {
+            let mut cur = rng.uniform(-5.0, 5.0);
+            (0..n)
+                .map(|_| {
+                    let v = cur;
+                    cur += rng.uniform(0.1, 2.0);
+                    v
+                })
+                .collect::<Vec<f64>>()
+        };
+        x = Some(rising(rng, shape[1]));
+        y = Some(rising(rng, shape[0]));
+    }
     let static_dim = shape.len() == need && rng.chance(0.6);
     let fail_build = if rng.chance(0.15) {
         Some(match rng.below(4) {
